@@ -166,6 +166,7 @@ pub fn label_census(case: &MpcCase, r: &RunResult<Vec<bool>>) -> Result<u32, Str
             }
         }
         let mut and_idx = 0;
+        let mut all_held: Vec<(usize, u128)> = vec![];
         for (w, (out, gate)) in case.circ.insts.iter().enumerate() {
             let l = match *gate {
                 G::In(..) => match &items[*out as usize] {
@@ -200,6 +201,19 @@ pub fn label_census(case: &MpcCase, r: &RunResult<Vec<bool>>) -> Result<u32, Str
                 }
             };
             held[*out as usize] = l;
+            if let Some(l) = l {
+                all_held.push((w, l));
+            }
+        }
+        // "the evaluator holds exactly one label per wire and garbler": no two labels it ever holds for
+        // garbler g (on any two wires, in any two chunks of gates) differ by g's global key
+        if let Some(d) = delta_of(r, g) {
+            let by_val: std::collections::HashMap<u128, usize> = all_held.iter().map(|(w, l)| (*l, *w)).collect();
+            for (w, l) in &all_held {
+                if let Some(w2) = by_val.get(&(l ^ d)) {
+                    return Err(format!("the labels the evaluator holds for garbler {g} at instructions {w2} and {w} XOR to garbler {g}'s global key"));
+                }
+            }
         }
     }
     Ok(checked)
@@ -235,6 +249,11 @@ pub fn main(tier: Tier, seed: u64) -> i32 {
             }
         }
     }
+    // several chunks of garbled gates (more than 1000 AND gates)
+    for (n, p_eval) in if tier.is_thorough() { vec![(2usize, 0usize), (2, 1), (3, 1), (3, 2)] } else { vec![(2, 0), (2, 1), (3, 1)] } {
+        let c = crate::circuits::and_chain(n, 1100);
+        honest_cases.push((format!("chain1100/n{n}/e{p_eval}"), MpcCase { inputs: c.inputs_from_mask(0b111), circ: c, p_eval, p_out: (0..n).collect(), tmp_mask: 0 }));
+    }
     let hres = par_map(&honest_cases, |w, i, (_, case)| {
         let r = probed_run(case, tape_seed(seed, 7000 + i as u64), vec![], vec![], w);
         let ok = check_honest(case, &r);
@@ -243,7 +262,8 @@ pub fn main(tier: Tier, seed: u64) -> i32 {
         for v in 0..case.n() {
             match delta_of(&r, v) {
                 Some(d) => {
-                    if let Err(e) = leak_monitor(&r, None, v, d, true, &mut st) {
+                    // 3-element sets only for the small circuits (quadratic in the number of fields)
+                    if let Err(e) = leak_monitor(&r, None, v, d, case.circ.insts.len() < 500, &mut st) {
                         leaks.push(e);
                     }
                 }
